@@ -19,7 +19,7 @@ def items_to_ints_func(ctx: Ctx) -> Func:
     `_check(ports)` keeps the guards the arity rules look for) and list comprehensions written as loops."""
     from .normalise import normalised
 
-    return normalised(ctx, ctx.func("Port._line__items_to_ints"), "calls,decomp")
+    return normalised(ctx, ctx.func("Port._line__items_to_ints"), "tailcalls,calls,decomp,multiret")
 
 
 PROPERTY = "C08"
